@@ -191,8 +191,8 @@ End Local.
 (* ------------------------------------------------------------------ shape of a machine step *)
 Section Machine.
 Variables c b : bool.
-Notation G := (gstep c b false).
-Notation R := (run c b false).
+Notation G := (gstep c b false false).
+Notation R := (run c b false false).
 
 (* what an executed instruction of thread t does besides advancing t's own core:
    g1 = the state with the mutex table / a counter / ANOTHER thread's started-joined flag changed,
@@ -624,7 +624,7 @@ Definition sched_shared : list tid := [0; 0; 1; 2].
    on its own it is 1 *)
 Lemma isolation_refuted_shared : forall c b,
   exists ps sched t,
-    match nth_error (thr (run c b true sched (ginit ps))) t, nth_error ps t with
+    match nth_error (thr (run c b true false sched (ginit ps))) t, nth_error ps t with
     | Some (l, s), Some p => depth (exc l) =? depth (exc (alone c (steps s) (linit t p))) = false
     | _, _ => False
     end.
@@ -635,12 +635,25 @@ Qed.
 (* Mutex_Trylock answering true on EBUSY: two threads hold the same mutex *)
 Lemma exclusion_refuted_busy_true : forall c,
   exists ps sched l1 s1 l2 s2 m,
-    nth_error (thr (run c true false sched (ginit ps))) 0 = Some (l1, s1) /\
-    nth_error (thr (run c true false sched (ginit ps))) 1 = Some (l2, s2) /\
+    nth_error (thr (run c true false false sched (ginit ps))) 0 = Some (l1, s1) /\
+    nth_error (thr (run c true false false sched (ginit ps))) 1 = Some (l2, s2) /\
     In m (holding s1) /\ In m (holding s2).
 Proof.
   intros. exists [[OSpawn 1; OTrySpin 0; OYield]; [OTrySpin 0; OYield]], [0; 0; 1].
   destruct c; vm_compute; do 4 eexists; exists 0; (split; [reflexivity|split; [reflexivity|split; left; reflexivity]]).
+Qed.
+
+(* pre-repair Thread_Mark (a collection walks the TLS tables of other running threads and writes into
+   them): after thread 1's collection thread 2 no longer finds the binding it has just stored *)
+Lemma isolation_refuted_foreign_walk : forall c b,
+  exists ps sched t,
+    match nth_error (thr (run c b false true sched (ginit ps))) t, nth_error ps t with
+    | Some (l, s), Some p => length (tls l) =? length (tls (alone c (steps s) (linit t p))) = false
+    | _, _ => False
+    end.
+Proof.
+  intros. exists [[OSpawn 1; OSpawn 2]; [OCollect]; [OTlsSet 1 5; OTlsGet 1]], [0; 0; 2; 1], 2.
+  destruct c, b; vm_compute; reflexivity.
 Qed.
 
 (* ------------------------------------------------------------------ tie to the source (Generated.v) *)
@@ -658,5 +671,5 @@ Proof. reflexivity. Qed.
 Lemma source_shapes :
   thr_exc_via_tls = true /\ thr_gc_via_tls = true /\ thr_current_via_key = true /\
   thr_init_own_records = true /\ thr_join_waits = true /\ thr_with_is_lock_unlock = true /\
-  thr_trylock_busy_result = false.
+  thr_trylock_busy_result = false /\ thr_mark_own_tls_only = true.
 Proof. repeat split; reflexivity. Qed.
